@@ -168,7 +168,14 @@ class PE(BinFormat):
         if s is None:
             logger.debug("address 0x%08x not mapped"%addr)
             raise ValueError
-        return self.loadsegment(s, raw=True)[offset:]
+        if not s or s.Characteristics == IMAGE_SCN_LNK_REMOVE:
+            return self.loadsegment(s, raw=True)[offset:]
+        # the file bytes from addr on and a bounded zero tail: the tables parsed from here are
+        # zero-terminated, there is no need to materialise VirtualSize (a 32-bit header field) bytes
+        sta = s.PointerToRawData + offset
+        sto = s.PointerToRawData + s.SizeOfRawData
+        tail = min(max(s.VirtualSize - max(s.SizeOfRawData, offset), 0), 0x10000)
+        return self.data[sta:max(sta, sto)] + b"\0" * tail
 
     def loadsegment(self, S, pagesize=0, raw=False):
         """
